@@ -1,5 +1,6 @@
 import NutsModel.Drv.Common
 import NutsModel.Gen.Numeric
+import NutsModel.Model.StepSizeSearch
 
 namespace NutsModel.Drv.C07
 open NutsModel NutsModel.Gen NutsModel.Drv
@@ -49,10 +50,55 @@ def adam (t : Toks) : Verdict := Id.run do
       return .mismatch s!"adam case={case} update={i} field=step_size model={showF ms} impl={showF outs[i]!}"
   return .ok
 
+/-- `search case adam target init n (fwd step outcome eerr)*n final_step adapt_step`:
+    replay of `Strategy::init` against the scripted one-step energies. -/
+def search (t : Toks) : Verdict := Id.run do
+  let some case := natAt t 1 | return .bad "case"
+  let some _adam := natAt t 2 | return .bad "adam"
+  let some target := fAt t 3 | return .bad "target"
+  let some init := fAt t 4 | return .bad "init"
+  let some n := natAt t 5 | return .bad "n"
+  if t.size != 6 + 4 * n + 2 then return .bad "length"
+  let mut trials : Array (Bool × Float × Nat × Float) := #[]
+  for j in [0:n] do
+    let some fwd := natAt t (6 + 4 * j) | return .bad "fwd"
+    let some step := fAt t (6 + 4 * j + 1) | return .bad "step"
+    let some oc := natAt t (6 + 4 * j + 2) | return .bad "oc"
+    let some ee := fAt t (6 + 4 * j + 3) | return .bad "eerr"
+    trials := trials.push (fwd == 1, step, oc, ee)
+  let some finalStep := fAt t (6 + 4 * n) | return .bad "final"
+  let some adaptStep := fAt t (6 + 4 * n + 1) | return .bad "adapt"
+  -- the recorded trials as the acceptance function; a query the implementation never made is flagged
+  let acc : Bool → Float → Option Float := fun fwd eps =>
+    match trials.find? (fun (f, s, _, _) => f == fwd && s.toBits == eps.toBits) with
+    | some (_, _, oc, ee) =>
+      if oc == 0 then
+        -- one leapfrog: mean acceptance = exp(min(E0 - E, 0)), computed by the translated collector
+        let c : Gen.AcceptanceRateCollector Float := (Gen.AcceptanceRateCollector.new).register_init 0.0
+        some (c.register_leapfrog ee none).mean.current
+      else none
+    | none => some (0.0 / 0.0)
+  let r := Model.search acc init target
+  let expectedTrials := match r.exit with
+    | .firstFailed => 1
+    | .fuel => 101
+    | _ => r.moves + 2
+  if expectedTrials != n then
+    return .mismatch s!"search case={case}: model makes {expectedTrials} trial leapfrogs ({repr r.exit}), implementation {n}"
+  if !(sameBits r.step finalStep) then
+    return .mismatch s!"search case={case}: exit={repr r.exit} step model={showF r.step} impl={showF finalStep}"
+  -- step size the adaptation reports afterwards: exp(ln(reinit)) or exp(ln(initial_step))
+  let base := match r.reinit with | some e => e | none => init
+  let expectAdapt := Float.exp (Float.log base)
+  if !(sameBits expectAdapt adaptStep) then
+    return .mismatch s!"search case={case}: adaptation restarted from model={showF expectAdapt} impl={showF adaptStep}"
+  return .ok
+
 def dispatch (t : Toks) : Option Verdict :=
   match t[0]? with
   | some "da" => some (da t)
   | some "adam" => some (adam t)
+  | some "search" => some (search t)
   | _ => none
 
 end NutsModel.Drv.C07
